@@ -532,6 +532,13 @@ func Features(c *Case) []string {
 			if x.Func.Name == "scalar" || x.Func.Name == "vector" {
 				f["call:scalar|vector"] = true
 			}
+			if x.Func.Name == "scalar" {
+				if vs, ok := x.Args[0].(*parser.VectorSelector); ok {
+					if !selectorMatchesAny(vs, c) {
+						f["scalar:arg-no-series"] = true
+					}
+				}
+			}
 			if x.Func.Name == "clamp" {
 				if a, ok := x.Args[1].(*parser.NumberLiteral); ok {
 					if b, ok := x.Args[2].(*parser.NumberLiteral); ok && b.Val < a.Val {
@@ -570,11 +577,13 @@ func Features(c *Case) []string {
 					}
 				} else {
 					f["agg:k&param-expr"] = true
+					f["agg:param-expr"] = true
 				}
 			}
 			if x.Op == parser.QUANTILE {
 				if _, ok := x.Param.(*parser.NumberLiteral); !ok {
 					f["agg:quantile&param-expr"] = true
+					f["agg:param-expr"] = true
 				}
 			}
 			if !x.Without && len(x.Grouping) == 0 {
@@ -703,4 +712,24 @@ func WellFormedQ(res *promql.Result, c *Case) []string {
 		return nil
 	}
 	return WellFormed(res, c.W, expr.Type())
+}
+
+func selectorMatchesAny(vs *parser.VectorSelector, c *Case) bool {
+	for _, d := range c.Data {
+		l, err := ParseLabels(d.L)
+		if err != nil {
+			continue
+		}
+		ok := true
+		for _, m := range vs.LabelMatchers {
+			if !m.Matches(l.Get(m.Name)) {
+				ok = false
+				break
+			}
+		}
+		if ok {
+			return true
+		}
+	}
+	return false
 }
